@@ -386,7 +386,12 @@ impl BudgetEnforcer {
             }
             Event::DocumentStart(_explicit) => {
                 if self.policy == EnforcingPolicy::PerDocument {
+                    // Every document starts from zero: counters, distinct anchors and (after
+                    // error recovery abandoned a document half-way) the nesting state.
                     self.report.reset();
+                    self.defined_anchors.clear();
+                    self.depth = 0;
+                    self.containers.clear();
                 } else {
                     self.report.documents += 1;
                     if self.report.documents > self.budget.max_documents {
